@@ -496,8 +496,9 @@ class BasicReadAssignment:
                     gene_set.add(m.assigned_gene)
                 if m.assigned_transcript:
                     isoform_set.add(m.assigned_transcript)
-            self.genes = list(gene_set)
-            self.isoforms = list(isoform_set)
+            # sorted: the lists take part in __eq__ and in the multimapper tie-break key, set order depends on PYTHONHASHSEED
+            self.genes = sorted(gene_set)
+            self.isoforms = sorted(isoform_set)
 
     def __eq__(self, other):
         if isinstance(other, BasicReadAssignment):
@@ -593,8 +594,8 @@ class BasicReadAssignment:
                 gene_set.add(m.assigned_gene)
             if m.assigned_transcript:
                 isoform_set.add(m.assigned_transcript)
-        read_assignment.genes = list(gene_set)
-        read_assignment.isoforms = list(isoform_set)
+        read_assignment.genes = sorted(gene_set)
+        read_assignment.isoforms = sorted(isoform_set)
 
         read_dict(infile)
         read_dict(infile)
